@@ -1,0 +1,25 @@
+//go:build verif
+
+package grpc
+
+import (
+	node "buf.build/gen/go/agglayer/agglayer/grpc/go/agglayer/node/v1/nodev1grpc"
+	aggkitgrpc "github.com/agglayer/aggkit/grpc"
+)
+
+// NewAgglayerGRPCClientWithServices builds the real client on top of in-memory
+// service implementations (no socket). Only compiled with -tags verif; used by
+// the external verification harness (/verif).
+func NewAgglayerGRPCClientWithServices(
+	cfg *aggkitgrpc.ClientConfig,
+	state node.NodeStateServiceClient,
+	cfgSvc node.ConfigurationServiceClient,
+	submission node.CertificateSubmissionServiceClient,
+) *AgglayerGRPCClient {
+	return &AgglayerGRPCClient{
+		cfg:                 cfg,
+		networkStateService: state,
+		cfgService:          cfgSvc,
+		submissionService:   submission,
+	}
+}
